@@ -83,8 +83,10 @@ enum Step {
     /// manual checkpoint; form: 0 `a.txt`, 1 `./a.txt`, 2 `<root>/a.txt`, 3 `<root>/./a.txt`, 4 `sub/./c.txt`
     Checkpoint { files: Vec<(u16, u8)> },
     /// write tool; mode 0 atomic (default), 1 atomic:false, 2 append; undo = rewind to the automatic checkpoint right away
-    ToolWrite { name: u16, text: String, mode: u8, undo: bool },
-    ToolPatch { ops: Vec<POp>, undo: bool },
+    /// `form` spells the path: 0 `a.txt`, 1 `./a.txt`, 4 `sub/./c.txt`, 5 `sub//c.txt`, 6 `./././a.txt`
+    ToolWrite { name: u16, text: String, mode: u8, undo: bool, #[serde(default)] form: u8 },
+    /// `form` spells every path of the patch: 0 plain, 1 `./a.txt`
+    ToolPatch { ops: Vec<POp>, undo: bool, #[serde(default)] form: u8 },
     FsWrite { name: u16, content: Content },
     FsDelete { name: u16 },
     /// whatever is at the path is replaced by a directory
@@ -149,10 +151,10 @@ fn pop() -> BoxedStrategy<POp> {
 fn step() -> BoxedStrategy<Step> {
     prop_oneof![
         4 => proptest::collection::vec((any::<u16>(), 0u8..5), 1..6).prop_map(|files| Step::Checkpoint { files }),
-        4 => (any::<u16>(), "[a-c\n]{0,6}", prop_oneof![3 => Just(0u8), 1 => Just(1u8), 1 => Just(2u8)], prop::bool::weighted(0.3))
-            .prop_map(|(name, text, mode, undo)| Step::ToolWrite { name, text, mode, undo }),
-        4 => (proptest::collection::vec(pop(), 1..4), prop::bool::weighted(0.3))
-            .prop_map(|(ops, undo)| Step::ToolPatch { ops, undo }),
+        4 => (any::<u16>(), "[a-c\n]{0,6}", prop_oneof![3 => Just(0u8), 1 => Just(1u8), 1 => Just(2u8)], prop::bool::weighted(0.3), prop_oneof![4 => Just(0u8), 2 => Just(1u8), 1 => Just(4u8), 1 => Just(5u8), 1 => Just(6u8)])
+            .prop_map(|(name, text, mode, undo, form)| Step::ToolWrite { name, text, mode, undo, form }),
+        4 => (proptest::collection::vec(pop(), 1..4), prop::bool::weighted(0.3), prop_oneof![3 => Just(0u8), 1 => Just(1u8)])
+            .prop_map(|(ops, undo, form)| Step::ToolPatch { ops, undo, form }),
         2 => (any::<u16>(), content()).prop_map(|(name, content)| Step::FsWrite { name, content }),
         2 => any::<u16>().prop_map(|name| Step::FsDelete { name }),
         1 => any::<u16>().prop_map(|name| Step::FsMkdirOver { name }),
@@ -603,13 +605,27 @@ fn run(case: &Case) -> CaseReport {
                     }
                 }
             }
-            Step::ToolWrite { name, text, mode, undo } => {
+            Step::ToolWrite { name, text, mode, undo, form } => {
                 let name = name_of(&names, *name);
+                let spelled = match form {
+                    1 => format!("./{name}"),
+                    4 => match name.split_once('/') {
+                        Some((d, rest)) => format!("{d}/./{rest}"),
+                        None => name.to_string(),
+                    },
+                    5 => match name.split_once('/') {
+                        Some((d, rest)) => format!("{d}//{rest}"),
+                        None => name.to_string(),
+                    },
+                    6 => format!("./././{name}"),
+                    _ => name.to_string(),
+                };
+                rep.class_if(spelled != name, "tool_write_path_spelled");
                 if w.ex_f21 && *mode == 0 && state(&sb, name) == St::Dir {
                     rep.count("excluded_known_F21_write_onto_directory", 1);
                     continue;
                 }
-                let mut args = json!({"path": name, "content": text});
+                let mut args = json!({"path": spelled, "content": text});
                 match mode {
                     1 => args["atomic"] = json!(false),
                     2 => args["append"] = json!(true),
@@ -622,25 +638,27 @@ fn run(case: &Case) -> CaseReport {
                 };
                 do_tool(&mut w, "write", cause, args, *undo, &mut rep, step_no);
             }
-            Step::ToolPatch { ops, undo } => {
+            Step::ToolPatch { ops, undo, form } => {
+                let sp = |n: &str| if *form == 1 { format!("./{n}") } else { n.to_string() };
+                rep.class_if(*form == 1, "tool_patch_paths_spelled");
                 let mut t = String::from("*** Begin Patch\n");
                 let mut has_move = false;
                 for op in ops {
                     match op {
                         POp::Add { name, text, fit } => {
                             let n = name_fit(&sb, &names, *name, false, *fit);
-                            t.push_str(&format!("*** Add File: {n}\n+{text}\n"));
+                            t.push_str(&format!("*** Add File: {}\n+{text}\n", sp(n)));
                         }
                         POp::Delete { name, fit } => {
                             let n = name_fit(&sb, &names, *name, true, *fit);
-                            t.push_str(&format!("*** Delete File: {n}\n"));
+                            t.push_str(&format!("*** Delete File: {}\n", sp(n)));
                         }
                         POp::Update { name, new_first, move_to, fit } => {
                             let n = name_fit(&sb, &names, *name, true, *fit);
-                            t.push_str(&format!("*** Update File: {n}\n"));
+                            t.push_str(&format!("*** Update File: {}\n", sp(n)));
                             if let Some(m) = move_to {
                                 let m = name_fit(&sb, &names, *m, false, *fit);
-                                t.push_str(&format!("*** Move to: {m}\n"));
+                                t.push_str(&format!("*** Move to: {}\n", sp(m)));
                                 has_move = true;
                             }
                             // hunk from the file's real first line (so the op usually applies)
